@@ -66,6 +66,13 @@ impl FrameCase {
             let mut results = vec![];
             let mut timed_out = false;
             for s in &steps {
+                if s.kind == "late-reply" {
+                    // the caller gives up after 100 ms (the future is dropped, as a cancelled CLI run does)
+                    // and shuts the driver down while the engine is still about to write its reply
+                    let r = tokio::time::timeout(Duration::from_millis(100), drv.run(&s.sql)).await;
+                    results.push(if r.is_err() { "abandoned".to_string() } else { "answered-early".to_string() });
+                    break;
+                }
                 let r = tokio::time::timeout(Duration::from_millis(1500), drv.run(&s.sql)).await;
                 match r {
                     Err(_) => {
@@ -212,6 +219,18 @@ fn cut(bytes: &[u8], cuts: &[usize]) -> Vec<Vec<u8>> {
 
 /// every single cut point / every pair of cut points of one short reply
 pub fn exhaustive_cuts(r: &mut Rng, pairs: bool, f: &mut dyn FnMut(FrameCase)) {
+    // the caller gives up while a reply is pending (small, and larger than a pipe buffer): shutting the
+    // driver down must still let the engine see end-of-file and reap it (D28)
+    for n in [10usize, 70_000, 300_000] {
+        let big = format!("{{\"result\":[[\"{}\"]]}}", "x".repeat(n)).into_bytes();
+        f(FrameCase {
+            steps: vec![
+                Step { sql: "select 0".into(), kind: "reply".into(), chunks: vec![b"{\"result\":[]}".to_vec()] },
+                Step { sql: "select big".into(), kind: "late-reply".into(), chunks: vec![big] },
+            ],
+            tag: format!("c20 caller gives up, reply of {} bytes pending", n),
+        });
+    }
     let reply = "{\"result\":[[\"é\",\"\u{1F600}\\n\"],[\"\\u00e9\",\"x\"]]} ".as_bytes().to_vec();
     let reply2 = " {\"err\":\"bo\\\"om 日本\"}".as_bytes().to_vec();
     for rep in [&reply, &reply2] {
